@@ -1,14 +1,16 @@
 #!/usr/bin/env python3
-"""Prints the markdown table of seeded changes (seeded/*/meta.json + seeded/RESULTS.json) for DESIGN.md 8.4."""
-import json, os
+"""Prints the markdown table of seeded changes (seeded/*/meta.json + seeded/RESULTS.json) for DESIGN.md 8.4.
+usage: lib/seeded_table.py [--only <id> ...]   (default: all)"""
+import json, os, sys
 V = os.path.dirname(os.path.dirname(os.path.abspath(__file__)))
 res = json.load(open(os.path.join(V, "seeded", "RESULTS.json")))
+only = sys.argv[2:] if len(sys.argv) > 1 and sys.argv[1] == "--only" else None
 print("| seeded change | property | what it needs to manifest | check result |")
 print("|---|---|---|---|")
 n = det = 0
 for sid in sorted(os.listdir(os.path.join(V, "seeded"))):
     d = os.path.join(V, "seeded", sid)
-    if not os.path.isdir(d):
+    if not os.path.isdir(d) or (only is not None and sid not in only):
         continue
     meta = json.load(open(os.path.join(d, "meta.json")))
     r = res.get(sid, {})
